@@ -23,7 +23,7 @@ Definition pless (a b : pscore) : bool :=
 
 Definition hget (h : list pscore) (i : nat) : pscore := nth i h ps_dflt.
 
-Fixpoint set_nth (h : list pscore) (i : nat) (x : pscore) : list pscore :=
+Fixpoint set_nth {A} (h : list A) (i : nat) (x : A) : list A :=
   match h, i with
   | [], _ => []
   | _ :: r, O => x :: r
@@ -51,6 +51,10 @@ Fixpoint hup (fuel : nat) (h : list pscore) (j : nat) : list pscore :=
       else hup f (hswap h i j) i
   end.
 
+(* down: j := j1; if j2 := j1 + 1; j2 < n && h.Less(j2, j1) { j = j2 } *)
+Definition pick_child (h : list pscore) (j1 n : nat) : nat :=
+  if ((j1 + 1 <? n)%nat && pless (hget h (j1 + 1)) (hget h j1))%bool then (j1 + 1)%nat else j1.
+
 (* container/heap down(h, i0, n): returns the array and the final position i (Go returns i > i0) *)
 Fixpoint hdown (fuel : nat) (h : list pscore) (i n : nat) : list pscore * nat :=
   match fuel with
@@ -59,7 +63,7 @@ Fixpoint hdown (fuel : nat) (h : list pscore) (i n : nat) : list pscore * nat :=
       let j1 := (2 * i + 1)%nat in
       if (n <=? j1)%nat then (h, i)
       else
-        let j := if ((j1 + 1 <? n)%nat && pless (hget h (j1 + 1)) (hget h j1))%bool then (j1 + 1)%nat else j1 in
+        let j := pick_child h j1 n in
         if negb (pless (hget h j) (hget h i)) then (h, i)
         else hdown f (hswap h i j) j n
   end.
